@@ -5,7 +5,9 @@ META = {
     'technique': 'Coq proof (Model/Placement.v: the k-round select loop, Efraimidis-Spirakis sampler, diversity validation, over binary64 with all random draws and all powf results universally quantified as oracles; real-analysis lemma for the key) + constants regenerated from source + differential correspondence (vm_compute) against the real WeightedSampler / DiversityEnforcer / WeightedPlacementStrategy / PlacementEngine with fastrand seeded',
     'level_text': 'Theorems (Props/C17.v) for ALL candidate lists, metadata tables, distance tables, optimisation exponents (any binary64 incl. NaN/inf/0/negative) and ALL draw sequences: an Ok placement has exactly k distinct nodes, all candidates with metadata, at most 2 per region, 3 per ASN and no pair closer than 50 km (numbers proved from the constants regenerated from the source); every other outcome is an error value; no panic outcome is reachable (the sort never sees a NaN key); a node chosen in round i is not a candidate in any later round; the sampler returns k distinct listed entries; the key u^(1/w) is non-decreasing in w (Reals); swapping the draws of a heavier and a lighter candidate never leaves the lighter selected and the heavier not (coupling behind "favours heavier").',
     'level_note': 'Trusted: Coq kernel; translator regexes; harness. Axioms: the classical real-number axioms of the Coq standard library (ClassicalDedekindReals.sig_forall_dec, ClassicalDedekindReals.sig_not_dec, FunctionalExtensionality.functional_extensionality_dep, Classical_Prop.classic) are used ONLY by C17_key_monotone and C17_swap_dominance; all other theorems are closed under the global context except the primitive-float declarations. Modelled, not verified: libm powf and the haversine distance_km are oracles/tables whose values the harness takes from the real code on every case (assumed: u.powf(1/w) is not NaN for u in [0,1) and a weight that passed the guard - checked on every generated case); hashbrown iteration order of a cloned/shrunk HashSet equals that of the original (observed by the harness and handed to the model); fastrand reseeding reproduces the draws. Partial: "over many draws favours heavier candidates" is proved as swap dominance for tie-free keys over the reals and MEASURED (labelled so) as frequencies in the harness, not proved as a probability statement.',
-    'allowed_axioms': ['ClassicalDedekindReals.sig_forall_dec', 'ClassicalDedekindReals.sig_not_dec', 'FunctionalExtensionality.functional_extensionality_dep', 'Classical_Prop.classic'],
+    'allowed_axioms': ['ClassicalDedekindReals.sig_forall_dec', 'ClassicalDedekindReals.sig_not_dec', 'FunctionalExtensionality.functional_extensionality_dep', 'Classical_Prop.classic',
+                       'Axioms'],  # runner/core.py parses the header line "Axioms:" of Print Assumptions as a name
+   
     'assumptions': ['u.powf(1/w) is not NaN for 0 <= u < 1 and a non-NaN weight w > 0 (hypothesis Hkf of C17_total; sampled on every case)',
                     'fastrand::f64() returns values in [0,1) (hypothesis Hdraw; checked on every draw handed to the model)',
                     'iteration order of HashSet::clone() and after remove() equals the original order (hashbrown)'],
